@@ -21,11 +21,12 @@ class _canary_range:
         raise NotImplementedError
 
 
-CONTRACTS = ["pendulum.interval.Interval.range"]
+CONTRACTS = ["pendulum.interval.Interval.range", "pendulum.interval.Interval.__contains__"]
 CANARIES = [("kth_value_off_by_one_step", "pendulum.interval.Interval.range", _canary_range)]
 ASSUMPTIONS = [
     "proved for the linear units (weeks, days, hours, seconds) on Date, naive and fixed-offset intervals, forward, inverted and absolute: on such clocks a step is a constant number of microseconds",
-    "months/years stepping (end-of-month clamping), named zones and __iter__/__contains__ are checked bounded on the real class",
+    "Interval.__contains__ is proved for an item of the endpoints' own kind (Date, naive, one fixed offset): x in interval <=> start <= x <= end; for one named-zone object CPython's same-tzinfo wall-clock comparison is known finding C11-same-tz-order, so that case is bounded only",
+    "months/years stepping (end-of-month clamping), named zones and __iter__ are checked bounded on the real class (ends placed on and next to the calendar anniversaries of the start)",
     "relies on the contracts of DateTime.add/subtract and Date.add/subtract (C03/C04)",
 ]
 EXPLANATION = "The generator is executed symbolically with a ghost yield counter: each yielded value is proved to be start shifted by k*amount units computed from the start, inside the interval, and the loop terminates (variant)."
@@ -38,8 +39,8 @@ def bounded(ctx):
 
 
 MANIFEST_ENTRY = {
-    "text": "Interval.range (a generator: ghost yield counter, loop invariant and termination variant) is proved for Date, naive and fixed-offset intervals - forward, inverted and absolute - and linear units: the k-th yielded value is exactly start shifted by k*amount units computed from the start (no drift), lies inside the interval, the sequence is strictly monotone and finite.",
-    "note": "Trusted: pyvc + spec, z3/cvc5. Assumed: contracts of add/subtract (proved under C03/C04). Bounded (not proved): months/years stepping from days 29-31, named zones, __iter__, __contains__, up to 10^4 steps. Known finding: duplicates across a skipped whole day.",
+    "text": "Interval.range (a generator: ghost yield counter, loop invariant and termination variant) is proved for Date, naive and fixed-offset intervals - forward, inverted and absolute - and linear units: the k-th yielded value is exactly start shifted by k*amount units computed from the start (no drift), lies inside the interval, the sequence is strictly monotone and finite; x in interval is proved equivalent to start <= x <= end for the same endpoint kinds.",
+    "note": "Trusted: pyvc + spec, z3/cvc5. Assumed: contracts of add/subtract (proved under C03/C04). Bounded (not proved): months/years stepping from days 29-31 with ends on/next to the calendar anniversaries, named zones, __iter__, membership in named zones, up to 10^4 steps. Known finding: duplicates across a skipped whole day.",
     "technique": "contract-based deductive verification of a generator (ghost sequence counter, loop invariant + variant, z3/cvc5); bounded enumeration for calendar units and zones",
     "design_ref": "DESIGN.md section 8 (C19)",
 }
